@@ -47,6 +47,8 @@ class AllocMachine(Machine):
         self.rt_slack = rt_slack
         self.structs: dict = {}
         self.probes: dict = {}
+        self.instances = 0
+        self.instance_site: dict = {}  # allocation instance -> source-level site, learnt from its first use with a static site
 
     def probe(self, name, n=1):
         self.probes[name] = self.probes.get(name, 0) + n
@@ -132,7 +134,8 @@ def _ucc(m: AllocMachine, op, vals, core):
             raise Violation("descriptor", f"memref descriptor built by the allocator lacks a size: {sizes}")
         strides = layout_strides(t, sizes)
         site = _site(op)
-        vals[op.outputs[0]] = MRef(v[(1,)], v.get((2,), 0) or 0, sizes, strides, eb, ("buf", site, v[(1,)]))
+        m.instances += 1  # every executed allocation is an instance of its own, whatever address it got
+        vals[op.outputs[0]] = MRef(v[(1,)], v.get((2,), 0) or 0, sizes, strides, eb, ("buf", site, v[(1,)], m.instances))
         m.events.append(("alloc", m.steps, v[(1,)], site))
         return
     if isinstance(v, int) and isinstance(t, (IntegerType, IndexType)):
@@ -185,6 +188,15 @@ def _use(m: AllocMachine, op, vals, core):
         v = m.get(vals, o)
         if isinstance(v, MRef):
             lo, hi = v.span()
+            inst = v.root[3] if len(v.root) > 3 else None
+            if site == -1:
+                # a use whose buffer is only known at run time (a loop-carried value): the instance the value stands for
+                site = m.instance_site.get(inst)
+                if site is None:
+                    raise HarnessError("use of a loop-carried buffer whose allocation instance was never named")
+                m.probe("use-resolved-by-instance")
+            elif inst is not None and site is not None and not isinstance(site, list):
+                m.instance_site.setdefault(inst, site)
             m.events.append(("use", m.steps, lo, hi, ("buf", site, v.base), tag))
     for r in op.results:
         vals[r] = 0
